@@ -6,6 +6,8 @@ TRUSTED_BASE = [
     "no sorry/admit/axiom/native_decide/bv_decide (grep on every run)",
     "hand-written Lean model + Spec predicate of the component (lean/Firebolt/Model, lean/Firebolt/Spec)",
     "correspondence check: Go harness (harness/, built against /repo's working tree with -tags verif) + fbdriver diff",
+    "extractor (go/ast, stdlib only): regenerates the skeleton / full-statement form of the functions the models were transcribed from and of the functions "
+    "their assumptions rest on; kernel-checked equality with the reviewed copies (Expected/*.lean)",
     "orchestrator run/verif.py",
 ]
 
@@ -24,6 +26,8 @@ EXEC_TRUST = ["Go runtime semantics assumed by the executor models: buffered cha
               "a send on a closed channel panics, select with default never blocks, sync.WaitGroup, sync.Once, goroutine creation; prometheus counters are atomic",
               "harness-owned source and nodes (harness/execnodes.go) observe the real executor; their outcome oracle (FNV-1a of seed, node index, payload) is re-implemented in "
               "Lean (Model/Flow.lean harnessOracle) and compared on every event",
+              "the operational product model (Model/ExecNet) is also RUN on every flow case without discarding nodes (Driver/FlowNet: canonical global schedule to quiescence) and must agree "
+              "with the denotational model and the implementation",
               "extractor (go/ast): the regenerated skeleton of Execute, runNode, startWorkers, setupNodes, ProcessEvent, handleResult, deliverToChild, handleFailure, "
               "invokeProcessorAsync, InitNodeContextHierarchy must equal the expected skeleton the models were transcribed from (kernel rfl)"]
 
